@@ -263,6 +263,28 @@ def extend_runs(ctx: Ctx, rng: random.Random, n: int):
         finally:
             netrec.stop()
             os.chdir(cwd)
+        # fold the trailing Add events of the command's append phases into one event per REQUESTED phase (the phases are
+        # distinguishable by the type of the reactions they append; a requested phase that appended nothing is an empty event)
+        if not err and rec.order:
+            sl = rec.nets[rec.order[-1]]
+            evs = sl["ev"]
+            tail = len(evs)
+            while tail > 0 and evs[tail - 1]["act"] in ("Reindex",):
+                tail -= 1
+            end = tail
+            while tail > 0 and evs[tail - 1]["act"] == "Add" and evs[tail - 1]["i"][4] in (200, 201, 202, 203):
+                tail -= 1
+            adds = evs[tail:end]
+            phases = []
+            base_post = evs[tail - 1]["post"] if tail > 0 else None
+            for flag, ty, act in (("--append-depletion", 200, "AppendDepletion"), ("--append-thermal-desorption", 201, "AppendDesorption"),
+                                  ("--append-photon-desorption", 203, "AppendDesorption"), ("--append-cosmic-ray-desorption", 202, "AppendDesorption")):
+                if flag in opts:
+                    grp = [e for e in adds if e["i"][4] == ty]
+                    post = grp[-1]["post"] if grp else (phases[-1]["post"] if phases else base_post)
+                    phases.append({"act": act, "ty": ty, "ids": [e["i"] for e in grp], "post": post, "err": ""})
+            if base_post is not None:
+                sl["ev"] = evs[:tail] + phases + evs[end:]
         results.append({"opts": opts, "err": err, "rec": rec, "dir": d, "n_in": len(descs)})
     return results
 
@@ -388,6 +410,7 @@ def main(ctx: Ctx) -> int:
     cov["traces_accepted"] = v["accepted"]
     cov["trace_states"] = v["states"]
     cov["events_validated"] = sum(len(t["ev"]) for t in traces)
+    cov["extend_append_phase_events"] = sum(1 for t in traces for e in t["ev"] if e["act"] in ("AppendDepletion", "AppendDesorption"))
     bytid = {t["tid"]: t for t in traces}
     mine = other = 0
     for tid, rj in sorted(v["rejected"].items()):
